@@ -140,6 +140,19 @@ def rule_Y7(ctx, rule: str = "Y7") -> None:
                         f"{q} embeds a Python type name into the annotation without consulting the message's shadowed builtins (its siblings do): when another field of the "
                         "message is named like that builtin (e.g. `int`, `str`, `bool`), the annotation evaluates to the field object and the class cannot be used",
                         "message M { repeated int32 int = 1; map<int32, int32> m = 2; }")
+        # a producer whose type name may come from unwrapping a wrapper message (get_type_reference with unwrap left on)
+        # has to apply the shadowing to the unwrapped scalar as well
+        unwraps = any(isinstance(c, ast.Call) and ast.unparse(c.func).endswith("get_type_reference") and not any(k.arg == "unwrap" for k in c.keywords)
+                      for qq, ff in fns.items() if qq.rsplit(".", 1)[0] == q.rsplit(".", 1)[0] for c in ast.walk(ff))
+        if consults and prefixes and unwraps:
+            ub = fns.get(q.rsplit(".", 1)[0] + ".use_builtins")
+            both = src + (ast.unparse(ub) if ub is not None else "")
+            if any(w in both for w in ("wrapped", "field_wraps", "WRAPPER_TYPES")):
+                ctx.proved(rule, f"{q}:shadowing-of-unwrapped-scalars", mod.loc(f))
+            else:
+                ctx.refuted(rule, f"{q}:shadowing-of-unwrapped-scalars", "wrapper-not-considered", mod.loc(f),
+                            f"{q} compares the whole type string with the shadowed builtins; for a wrapper field that string is Optional[<scalar>], so the scalar is never "
+                            "prefixed and evaluates to the shadowing field", "message M { string int = 1; google.protobuf.Int32Value w = 2; }")
         # whoever can emit the prefix must also report it through use_builtins of the same class (the import decision reads it)
         cls = q.rsplit(".", 1)[0]
         if consults and prefixes and "use_builtins" not in src:
